@@ -67,7 +67,7 @@ struct CState {
 fn request_pieces(rng: &mut StdRng, c: usize, k: usize, good: bool, limit: usize) -> Vec<Vec<u8>> {
     let uri = tag_uri(c, k);
     let mut req: Vec<u8> = vec![];
-    let kind = rng.gen_range(0..if good { 6 } else { 10 });
+    let kind = rng.gen_range(0..if good { 6 } else { 11 });
     match kind {
         0 | 1 => {
             req.extend(b"GET ");
@@ -112,6 +112,12 @@ fn request_pieces(rng: &mut StdRng, c: usize, k: usize, good: bool, limit: usize
             req.extend(b"GET ");
             req.extend(&uri);
             req.extend(b" HTTP/1.1\r\nNoColonHere\r\n\r\n");
+        }
+        9 => {
+            // asks for 100 Continue but declares more than the limit: the only answer is the 400
+            req.extend(b"PUT ");
+            req.extend(&uri);
+            req.extend(format!(" HTTP/1.1\r\nExpect: 100-continue\r\nContent-Length: {}\r\n\r\n", limit + 1 + rng.gen_range(0..3)).as_bytes());
         }
         _ => {
             let n = rng.gen_range(1..30);
@@ -251,6 +257,12 @@ pub fn history(dom: &Domain, seed: u64, hist: u64, sock_dir: &str, out: &mut dyn
                       else if rng.gen_bool(0.2) { rng.gen_range(0..3000) } else { 0 };
             cands.push((if settling { 10 } else { dom.respond_weight }, json!({"e": "respond", "c": c, "k": rng.gen_range(0..8), "pad": pad, "code": if rng.gen_bool(0.1) { 204 } else { 200 }})));
         }
+        // answers supplied around a write: two answers, one poll (one write), a third answer
+        if dom.pipeline > 0.4 {
+            if let Some(c) = (1..=nclients).find(|c| held_clients.iter().filter(|h| *h == c).count() >= 3) {
+                cands.push((3, json!({"e": "burst_respond", "c": c})));
+            }
+        }
         if dom.flush && !settling {
             cands.push((1, json!({"e": "flush"})));
         }
@@ -322,6 +334,24 @@ pub fn history(dom: &Domain, seed: u64, hist: u64, sock_dir: &str, out: &mut dyn
                     }
                 }
                 d.step(&json!({"e": "send", "c": c, "bytes": obs::bytes(&bytes), "fds": fds}), out);
+            }
+            "burst_respond" => {
+                let r = json!({"e": "respond", "c": c, "k": 0, "pad": 0, "code": 200});
+                d.step(&r, out);
+                d.step(&r, out);
+                if d.ready() {
+                    d.step(&json!({"e": "poll"}), out);
+                }
+                d.step(&r, out);
+                // let the answers reach the client: what it receives is what C07 judges
+                for _ in 0..3 {
+                    if d.ready() {
+                        d.step(&json!({"e": "poll"}), out);
+                    }
+                }
+                if !cs[c - 1].closed {
+                    d.step(&json!({"e": "recv", "c": c}), out);
+                }
             }
             "connect" => {
                 d.step(&chosen, out);
